@@ -855,7 +855,12 @@ def g_lon(rng):
 
 
 def g_lat(rng):
-    k = rng.choice(['deg', 'deg', 'rad', 'dms', 'dms', 'dot'])
+    k = rng.choice(['deg', 'deg', 'rad', 'dms', 'dms', 'dot', 'colon'])
+    if k == 'colon':
+        # colon notation means HOURS in CASA region text, in the second slot too (02:00:00 is 30 deg)
+        h, m, sec = rng.randint(0, 5), rng.randint(0, 59), sec_str(rng)
+        sg = rng.choice(['-', '-', '', '+'])
+        return f'{sg}{h:02d}:{m:02d}:{sec}', 15.0 * (h + m / 60.0 + float(sec) / 3600.0) * (-1 if sg == '-' else 1)
     if k == 'deg':
         s = dec_str(rng, -90, 90, 8, sign=True)
         return s + 'deg', float(s)
